@@ -30,10 +30,54 @@ type Vector struct {
 	Errs    []string         `json:"errs"`
 	Why     []string         `json:"why"`
 	Schema  *schemadump.Node `json:"schema"`
+	Open    []OpenAttr       `json:"open"`
 	AltKind string           `json:"altkind"`
 	Alt     []scm.Stmt       `json:"alt"`
 	Flt     []FltVec         `json:"flt"`
 	Cls     []string         `json:"cls"`
+}
+
+// OpenAttr names an attribute of a node (path = node names from the root) that the spec does not judge
+// (verdict "open": neither the compile verdict nor these attributes are prescribed, the rest of the schema is).
+type OpenAttr struct {
+	Path []string `json:"path"`
+	Attr string   `json:"attr"`
+}
+
+func nodeAt(n *schemadump.Node, path []string) *schemadump.Node {
+	for _, name := range path {
+		var next *schemadump.Node
+		for _, c := range n.Children {
+			if c.Name == name {
+				next = c
+				break
+			}
+		}
+		if next == nil {
+			return nil
+		}
+		n = next
+	}
+	return n
+}
+
+// unjudge makes the attributes that the spec leaves open equal in a prediction and a dump (the prediction takes the
+// dump's value); a path that one of the two does not have is left alone (the children comparison reports it).
+func unjudge(model, code *schemadump.Node, open []OpenAttr) {
+	for _, oa := range open {
+		m, c := nodeAt(model, oa.Path), nodeAt(code, oa.Path)
+		if m == nil || c == nil {
+			continue
+		}
+		switch oa.Attr {
+		case "keys":
+			m.Keys = c.Keys
+		case "uniques":
+			m.Uniques = c.Uniques
+		case "def":
+			m.HasDef, m.Def = c.HasDef, c.Def
+		}
+	}
 }
 
 // Mism is one disagreement between the code and the spec (or between the two
@@ -171,11 +215,15 @@ func judge(id int, v *Vector) (Outcome, *TraceEvent) {
 			o.Mism = append(o.Mism, *m)
 		}
 	}
-	if v.Verdict != verdictOf(r) {
+	// verdict "open": whether the module set compiles is not prescribed (it must not panic); if it does, the schema is
+	open := v.Verdict == "open"
+	agrees := func(got string) bool { return v.Verdict == got || (open && got != "panic") }
+	if !agrees(verdictOf(r)) {
 		add(&Mism{Cmp: "model-vs-code", Attr: "verdict", Want: v.Verdict, Got: verdictOf(r) + " " + short(r.Err)})
 	}
-	if v.Verdict == "ok" && r.OK {
+	if (v.Verdict == "ok" || open) && r.OK {
 		schemadump.Canon(v.Schema)
+		unjudge(v.Schema, r.Dump, v.Open)
 		add(diffMism("model-vs-code", v.Schema, r.Dump, optModel, ""))
 	}
 	if v.AltKind != "none" {
@@ -184,7 +232,7 @@ func judge(id int, v *Vector) (Outcome, *TraceEvent) {
 		if verdictOf(ra) != verdictOf(r) {
 			add(&Mism{Cmp: "alt-vs-original", Attr: "verdict", Want: verdictOf(r) + " " + short(r.Err), Got: verdictOf(ra) + " " + short(ra.Err)})
 		}
-		if verdictOf(ra) != v.Verdict {
+		if !agrees(verdictOf(ra)) {
 			add(&Mism{Cmp: "alt-vs-model", Attr: "verdict", Want: v.Verdict, Got: verdictOf(ra) + " " + short(ra.Err)})
 		}
 		if r.OK && ra.OK {
@@ -197,8 +245,9 @@ func judge(id int, v *Vector) (Outcome, *TraceEvent) {
 	ev := filterEvent(id, v, r, func(fv FltVec, rf scm.Result) {
 		if !rf.OK {
 			add(&Mism{Cmp: "filter-vs-model", Attr: "verdict", Want: "ok", Got: verdictOf(rf) + " " + short(rf.Err), Filter: fv.F.String()})
-		} else if v.Verdict == "ok" {
+		} else if v.Verdict == "ok" || open {
 			schemadump.Canon(fv.Schema)
+			unjudge(fv.Schema, rf.Dump, v.Open)
 			add(diffMism("filter-vs-model", fv.Schema, rf.Dump, schemadump.Options{IgnoreAsParent: true, ModelCtx: true}, fv.F.String()))
 		}
 	})
